@@ -843,8 +843,9 @@ impl Rasn {
             }
         };
         let name = self.to_rust_title_case(&tld.name);
+        // a constraint on a referenced element type needs a delegate of its own to live on
         let anonymous_item = match seq_or_set_of.element_type.as_ref() {
-            ASN1Type::ElsewhereDeclaredType(_) => None,
+            ASN1Type::ElsewhereDeclaredType(d) if d.constraints.is_empty() => None,
             n => Some(self.generate_type(ToplevelTypeDefinition {
                 parameterization: None,
                 comments: format!(
@@ -859,7 +860,7 @@ impl Rasn {
         }
         .unwrap_or_default();
         let member_type = match seq_or_set_of.element_type.as_ref() {
-            ASN1Type::ElsewhereDeclaredType(d) => {
+            ASN1Type::ElsewhereDeclaredType(d) if d.constraints.is_empty() => {
                 self.to_rust_qualified_type(d.module.as_deref(), &d.identifier)
             }
             _ => format_ident!("Anonymous{}", &name.to_string()).to_token_stream(),
